@@ -463,6 +463,15 @@ func (c *C) smtpToLMTPData(ctx context.Context, hdr textproto.Header, body io.Re
 	return nil
 }
 
+// abortData is called when the message could not be written completely after
+// the DATA command was accepted. The connection is closed right away: anything
+// sent over it later (QUIT sent by Close) would make net/textproto terminate
+// the unfinished data stream with "." and the server would accept
+// a truncated message.
+func (c *C) abortData() {
+	c.cl.Close()
+}
+
 // Data sends the DATA command to the remote server and then sends the message header
 // and body.
 //
@@ -481,10 +490,12 @@ func (c *C) Data(ctx context.Context, hdr textproto.Header, body io.Reader) erro
 	}
 
 	if err := textproto.WriteHeader(wc, hdr); err != nil {
+		c.abortData()
 		return c.wrapClientErr(err, c.serverName)
 	}
 
 	if _, err := io.Copy(wc, body); err != nil {
+		c.abortData()
 		return c.wrapClientErr(err, c.serverName)
 	}
 
@@ -504,10 +515,12 @@ func (c *C) LMTPData(ctx context.Context, hdr textproto.Header, body io.Reader, 
 	}
 
 	if err := textproto.WriteHeader(wc, hdr); err != nil {
+		c.abortData()
 		return c.wrapClientErr(err, c.serverName)
 	}
 
 	if _, err := io.Copy(wc, body); err != nil {
+		c.abortData()
 		return c.wrapClientErr(err, c.serverName)
 	}
 
